@@ -1053,7 +1053,7 @@ class Interp:
         elif key == "to_entries/0":
             if not isinstance(inp, dict):
                 raise JqError(True)
-            yield [{"key": k, "value": v} for k, v in ((k, inp[k]) for k in sorted_keys(inp))]
+            yield [{"key": k, "value": v} for k, v in inp.items()]
         elif key == "from_entries/0":
             out = {}
             for ent in self.iterate(inp):
@@ -1065,7 +1065,7 @@ class Interp:
             if not isinstance(inp, dict):
                 raise JqError(True)
             out = {}
-            for k in sorted_keys(inp):
+            for k in list(inp.keys()):
                 for ent in A(0, {"key": k, "value": inp[k]}):
                     if not isinstance(ent, dict) or "key" not in ent or not isinstance(ent["key"], str) or "value" not in ent:
                         raise Unsupported("with_entries producing non-canonical entries")
@@ -1165,7 +1165,7 @@ class Interp:
 
     def paths(self, v, prefix):
         if isinstance(v, dict):
-            for k in sorted_keys(v):
+            for k in list(v.keys()):
                 yield prefix + [k]
                 yield from self.paths(v[k], prefix + [k])
         elif isinstance(v, list):
